@@ -7,6 +7,7 @@ import (
 	"sort"
 	"sync"
 	"testing"
+	"time"
 
 	"github.com/Trendyol/go-dcp/couchbase"
 	"github.com/Trendyol/go-dcp/membership"
@@ -131,6 +132,27 @@ func TestVerifFallbackOpenAllStreams(t *testing.T) {
 				if got[i] != vb || cl.openedWith[vb] != o {
 					t.Fatalf("VIOLATION C15: assignment %v: requests %v, vBucket %d requested with a foreign observer=%v", ids, got, vb, cl.openedWith[vb] != o)
 				}
+			}
+		}
+	}
+	// a large assignment whose requests are answered slowly: still one request per assigned vBucket
+	{
+		cases++
+		var ids []uint16
+		for i := 0; i < 300; i++ {
+			ids = append(ids, uint16(i))
+		}
+		cl := &vfClient{}
+		cl.openDelay = 20 * time.Millisecond
+		s := newReplayStream(ids, &vfConsumer{}, &vfMetadata{}, cl)
+		s.openAllStreams(ids)
+		seen := map[uint16]int{}
+		for _, vb := range cl.opened {
+			seen[vb]++
+		}
+		for _, vb := range ids {
+			if seen[vb] != 1 {
+				t.Fatalf("VIOLATION C15: 300 assigned vBuckets with slow answers: vBucket %d requested %d times (%d requests in all)", vb, seen[vb], len(cl.opened))
 			}
 		}
 	}
